@@ -85,7 +85,8 @@ LoadHead1(th) ==
 LoadTail1(th) ==
     /\ pc[th] = "t1"
     /\ pc' = [pc EXCEPT ![th] = IF Dist(h[th], tail) >= N THEN "h1" ELSE "lock"]
-    /\ UNCHANGED <<head, tail, pub, cons, lockHolder, h, hc, t>>
+    /\ t' = [t EXCEPT ![th] = tail]       \* overwritten at t2; used by the stale-tail deviation only
+    /\ UNCHANGED <<head, tail, pub, cons, lockHolder, h, hc>>
 
 Lock(th) ==
     /\ pc[th] = "lock" /\ lockHolder = NoThread
@@ -99,10 +100,10 @@ LoadHead2(th) ==
     /\ pc' = [pc EXCEPT ![th] = "t2"]
     /\ UNCHANGED <<head, tail, pub, cons, lockHolder, t>>
 
-LoadTail2G(th, offByOne) ==
+LoadTail2G(th, offByOne, stale) ==
     /\ pc[th] = "t2"
     /\ t' = [t EXCEPT ![th] = tail]
-    /\ LET d == Dist(h[th], tail)
+    /\ LET d == Dist(h[th], IF stale THEN t[th] ELSE tail)
            full == IF offByOne THEN d > N ELSE d >= N IN
        IF full
        THEN /\ lockHolder' = NoThread
@@ -140,11 +141,13 @@ KConsume ==
     /\ cons' = cons + 1
     /\ UNCHANGED <<tail, pub, lockHolder, pc, h, hc, t>>
 
-StepG(th, o) == LoadHead1(th) \/ LoadTail1(th) \/ Lock(th) \/ LoadHead2(th) \/ LoadTail2G(th, o)
+StepG(th, o, st) == LoadHead1(th) \/ LoadTail1(th) \/ Lock(th) \/ LoadHead2(th) \/ LoadTail2G(th, o, st)
                 \/ Zero(th) \/ Fill(th) \/ Publish(th) \/ Unlock(th)
 
-Next == (\E th \in Threads : StepG(th, FALSE)) \/ KConsume
-NextOffByOne == (\E th \in Threads : StepG(th, TRUE)) \/ KConsume
+Next == (\E th \in Threads : StepG(th, FALSE, FALSE)) \/ KConsume
+NextOffByOne == (\E th \in Threads : StepG(th, TRUE, FALSE)) \/ KConsume
+\* The locked check compares the fresh head with the tail loaded before the lock.
+NextStaleTail == (\E th \in Threads : StepG(th, FALSE, TRUE)) \/ KConsume
 
 \* ---- the inductive invariant ------------------------------------------------
 InW(x) == 0 <= x /\ x < W
